@@ -20,6 +20,7 @@ import StirVerif.Gen.Kernels
 import StirVerif.C01.Model
 import StirVerif.C06.Model
 import StirVerif.C03.Model
+import StirVerif.C02.Model
 
 namespace StirVerif.Gen
 open StirVerif
@@ -402,5 +403,115 @@ theorem bridge_cache_key (s v ax tang tof : Int) (hax : ax.natAbs < 2 ^ 28) (htg
   rw [u64OfInt_natAbs ax (by omega), u64OfInt_natAbs tang (by omega), u64OfInt_natAbs tof (by omega)]
   rw [u64shl_of_lt _ 62 (by have := sb ax; omega), u64shl_of_lt _ 34 (by omega), u64shl_of_lt _ 33 (by have := sb tang; omega),
       u64shl_of_lt _ 21 (by omega), u64shl_of_lt _ 20 (by have := sb tof; omega)]
+
+
+/-! ## C02: the address arithmetic of projection data (`ProjDataInMemory::get_index`, `ProjDataFromStream::get_offset`)
+
+The whole function bodies are translated: the five range checks (`error(...)` call number k ↦ result `(k, 0)`), the two
+`std::find(...) - begin()` look-ups (`vecFind`), the loop over the segments stored before the requested one (`forRange`) and the
+arithmetic of both storage orders.  The bridges say: for every layout and every bin — in range or not — the translated function
+returns what the model's `getIndex` / `offsetOf` return (`resOf`), given that the accessors `get_max_*` are `min + num - 1`
+(`Layout.maxAx / maxView / maxTang`, definitions of `ProjDataInfo`; exercised by tie (C)) and that the layout is one with the view
+and tangential range checks the source now has.  64-bit types are unbounded `Int` here, as in the model. -/
+
+theorem vecFind_eq (l : List Int) (a : Int) : vecFind l a = (C02.findIdx l a : Nat) := by
+  induction l with
+  | nil => simp [vecFind, C02.findIdx]
+  | cons x xs ih =>
+    simp only [vecFind, C02.findIdx, beq_iff_eq]
+    split <;> simp_all
+
+theorem findIdx_le (l : List Int) (a : Int) : C02.findIdx l a ≤ l.length := by
+  induction l with
+  | nil => simp [C02.findIdx]
+  | cons x xs ih => simp only [C02.findIdx]; split <;> simp <;> omega
+
+/-- the loop `for (i = k; i < k + n; i++) s += f(v[i])` adds the values of `f` on the slice `v[k .. k+n)` -/
+theorem forRange_sum (l : List Int) (f : Int → Int) (n : Nat) :
+    ∀ (k : Nat) (s : Int), k + n ≤ l.length →
+      forRange (k : Int) n (fun i acc => acc + f (vecGet l i)) s = s + (((l.drop k).take n).map f).sum := by
+  induction n with
+  | zero => intro k s _; simp [forRange]
+  | succ n ih =>
+    intro k s h
+    have hk : k < l.length := by omega
+    have hd : l.drop k = l[k] :: l.drop (k + 1) := List.drop_eq_getElem_cons hk
+    have hg : vecGet l (k : Int) = l[k] := by
+      have : ¬ ((k : Int) < 0) := by omega
+      simp [vecGet, this, List.getD_eq_getElem?_getD, List.getElem?_eq_getElem hk]
+    have := ih (k + 1) (s + f (vecGet l (k : Int))) (by omega)
+    simp only [forRange]
+    rw [show ((k : Int) + 1) = ((k + 1 : Nat) : Int) by omega, this, hd, hg]
+    simp only [List.take_succ_cons, List.map_cons, List.sum_cons]
+    omega
+
+def errCode : C02.Err → Int
+  | .segRange => 1 | .axRange => 2 | .tofRange => 3 | .viewRange => 4 | .tangRange => 5
+
+def resOf : Except C02.Err Int → Int × Int
+  | .error e => (errCode e, 0)
+  | .ok v => (0, v)
+
+theorem axBefore_eq (l : C02.Layout) (seg : Int) :
+    forRange 0 (C02.findIdx l.segSeq seg) (fun i acc => acc + l.numAx (vecGet l.segSeq i)) 0
+      = C02.axBefore l (C02.findIdx l.segSeq seg) := by
+  have h := forRange_sum l.segSeq l.numAx (C02.findIdx l.segSeq seg) 0 0 (by simpa using findIdx_le _ _)
+  simpa [C02.axBefore] using h
+
+theorem bridge_get_index (l : C02.Layout) (b : C02.Bin) (maxAx : Int → Int) (maxView maxTang : Int)
+    (hax : ∀ s, maxAx s = l.maxAx s) (hv : maxView = l.maxView) (ht : maxTang = l.maxTang)
+    (hcv : l.checkView = true) (hct : l.checkTang = true) :
+    get_index l.segSeq l.tofSeq l.minSeg l.maxSeg l.minAx maxAx l.numAx l.minView maxView l.numViews l.minTang maxTang l.numTang
+        l.minTof l.maxTof l.numTof l.offset3d b.seg b.view b.ax b.tang b.tof
+      = resOf (C02.getIndex l b) := by
+  subst hv ht
+  simp only [get_index, C02.getIndex, Id.run, pure_id, hax, hcv, hct, resOf] at *
+  simp only [vecFind_eq]
+  by_cases h1 : (l.minSeg ≤ b.seg ∧ b.seg ≤ l.maxSeg) <;>
+  by_cases h2 : (l.minAx b.seg ≤ b.ax ∧ b.ax ≤ l.maxAx b.seg) <;>
+  by_cases h3 : (l.minTof ≤ b.tof ∧ b.tof ≤ l.maxTof) <;>
+  by_cases h4 : (l.minView ≤ b.view ∧ b.view ≤ l.maxView) <;>
+  by_cases h5 : (l.minTang ≤ b.tang ∧ b.tang ≤ l.maxTang) <;>
+  by_cases h6 : (l.numTof > 1) <;>
+  simp [h1, h2, h3, h4, h5, h6, errCode, axBefore_eq]
+
+/-- the value of the enumerator of `ProjDataFromStream::StorageOrder` that stands for a model order, with or without the
+    `Timing_` prefix (the two are handled by the same branch of the source) -/
+def orderCode (o : C02.Order) (timing : Bool) : Int :=
+  match o, timing with
+  | .savt, false => 0 | .savt, true => 1 | .svat, false => 2 | .svat, true => 3
+
+theorem bridge_get_offset (l : C02.Layout) (b : C02.Bin) (maxAx : Int → Int) (maxView maxTang : Int) (timing : Bool)
+    (hax : ∀ s, maxAx s = l.maxAx s) (hv : maxView = l.maxView) (ht : maxTang = l.maxTang)
+    (hcv : l.checkView = true) (hct : l.checkTang = true) :
+    get_offset l.segSeq l.tofSeq l.minSeg l.maxSeg l.minAx maxAx l.numAx l.minView maxView l.numViews l.minTang maxTang l.numTang
+        l.minTof l.maxTof l.numTof (orderCode l.order timing) l.elemSize l.offset l.offset3d b.seg b.view b.ax b.tang b.tof
+      = resOf (C02.offsetOf l b) := by
+  subst hv ht
+  simp only [get_offset, C02.offsetOf, C02.rawOffset, Id.run, pure_id, hax, hcv, hct, resOf] at *
+  simp only [vecFind_eq]
+  by_cases h1 : (l.minSeg ≤ b.seg ∧ b.seg ≤ l.maxSeg) <;>
+  by_cases h2 : (l.minAx b.seg ≤ b.ax ∧ b.ax ≤ l.maxAx b.seg) <;>
+  by_cases h3 : (l.minTof ≤ b.tof ∧ b.tof ≤ l.maxTof) <;>
+  by_cases h4 : (l.minView ≤ b.view ∧ b.view ≤ l.maxView) <;>
+  by_cases h5 : (l.minTang ≤ b.tang ∧ b.tang ≤ l.maxTang) <;>
+  by_cases h6 : (l.numTof > 1) <;>
+  cases ho : l.order <;> cases timing <;>
+  simp [h1, h2, h3, h4, h5, h6, errCode, axBefore_eq, orderCode]
+
+/-- any other value of the storage order is the sixth `error(...)` call of the source (after the five range checks) -/
+theorem bridge_get_offset_unsupported (l : C02.Layout) (b : C02.Bin) (ord : Int)
+    (hord : ord ≠ 0 ∧ ord ≠ 1 ∧ ord ≠ 2 ∧ ord ≠ 3) (hok : ∃ v, C02.offsetOf l b = .ok v)
+    (hcv : l.checkView = true) (hct : l.checkTang = true) :
+    get_offset l.segSeq l.tofSeq l.minSeg l.maxSeg l.minAx l.maxAx l.numAx l.minView l.maxView l.numViews l.minTang l.maxTang l.numTang
+        l.minTof l.maxTof l.numTof ord l.elemSize l.offset l.offset3d b.seg b.view b.ax b.tang b.tof = (6, 0) := by
+  obtain ⟨v, hv⟩ := hok
+  simp only [get_offset, C02.offsetOf, Id.run, pure_id, hcv, hct] at *
+  by_cases h1 : (l.minSeg ≤ b.seg ∧ b.seg ≤ l.maxSeg) <;>
+  by_cases h2 : (l.minAx b.seg ≤ b.ax ∧ b.ax ≤ l.maxAx b.seg) <;>
+  by_cases h3 : (l.minTof ≤ b.tof ∧ b.tof ≤ l.maxTof) <;>
+  by_cases h4 : (l.minView ≤ b.view ∧ b.view ≤ l.maxView) <;>
+  by_cases h5 : (l.minTang ≤ b.tang ∧ b.tang ≤ l.maxTang) <;>
+  simp [h1, h2, h3, h4, h5, hord.1, hord.2.1, hord.2.2.1, hord.2.2.2] at hv ⊢
 
 end StirVerif.Gen
